@@ -93,6 +93,7 @@ func (d *duplexHTTPCall) Write(data []byte) (int, error) {
 		d.SetError(err)
 		return 0, wrapIfContextError(err)
 	}
+	verifYield("write.beforePipe")
 	// It's safe to write to this side of the pipe while net/http concurrently
 	// reads from the other side.
 	bytesWritten, err := d.requestBodyWriter.Write(data)
@@ -123,6 +124,7 @@ func (d *duplexHTTPCall) CloseWrite() error {
 	// forever. To make sure users don't have to worry about this, the generated
 	// code for unary, client streaming, and server streaming RPCs must call
 	// CloseWrite automatically rather than requiring the user to do it.
+	verifYield("closeWrite")
 	return d.requestBodyWriter.Close()
 }
 
@@ -153,6 +155,7 @@ func (d *duplexHTTPCall) Read(data []byte) (int, error) {
 	if d.response == nil {
 		return 0, fmt.Errorf("nil response from %v", d.request.URL)
 	}
+	verifYield("read.beforeBody")
 	n, err := d.response.Body.Read(data)
 	if err != nil && !errors.Is(err, io.EOF) {
 		// If the context was canceled or timed out while we were blocked reading
@@ -167,6 +170,7 @@ func (d *duplexHTTPCall) CloseRead() error {
 	if d.response == nil {
 		return nil
 	}
+	verifYield("closeRead.beforeDiscard")
 	if err := discard(d.response.Body); err != nil {
 		// Even if we can't drain the body, we still need to release it.
 		_ = d.response.Body.Close()
@@ -214,6 +218,7 @@ func (d *duplexHTTPCall) SetError(err error) {
 	// Closing the read side of the request body pipe acquires an internal lock,
 	// so we want to scope errMu's usage narrowly and avoid defer.
 	d.errMu.Unlock()
+	verifYield("setError.beforeClosePipe")
 
 	// We've already hit an error, so we should stop writing to the request body.
 	// It's safe to call Close more than once and/or concurrently (calls after
@@ -248,6 +253,7 @@ func (d *duplexHTTPCall) makeRequest() {
 
 	// Once we send a message to the server, they send a message back and
 	// establish the receive side of the stream.
+	verifYield("makeRequest.beforeDo")
 	response, err := d.httpClient.Do(d.request)
 	if err != nil {
 		err = wrapIfContextError(err)
@@ -260,11 +266,13 @@ func (d *duplexHTTPCall) makeRequest() {
 		d.SetError(err)
 		return
 	}
+	verifYield("makeRequest.afterDo")
 	d.response = response
 	if err := d.validateResponse(response); err != nil {
 		d.SetError(err)
 		return
 	}
+	verifYield("makeRequest.afterValidate")
 	if (d.streamType&StreamTypeBidi) == StreamTypeBidi && response.ProtoMajor < 2 {
 		// If we somehow dialed an HTTP/1.x server, fail with an explicit message
 		// rather than returning a more cryptic error later on.
